@@ -365,6 +365,12 @@ func (mw *msgWriter) addFiles(files []*File, isAttachment bool) {
 				file.setHeader(HeaderContentID, fmt.Sprintf("<%s>", sanitizeFilename(file.Name)))
 			}
 		}
+		// A caller-supplied Content-ID (WithFileContentID) is stored verbatim. If it contains control
+		// characters (e.g. line breaks), encode it, so that it cannot add header fields of its own.
+		if contentID, ok := file.getHeader(HeaderContentID); ok && hasControlChars(contentID) {
+			file.setHeader(HeaderContentID, mw.encoder.Encode(mw.charset.String(), contentID))
+		}
+
 		if mw.depth == 0 {
 			// write the file headers in a stable order (map iteration order is random)
 			headerKeys := make([]string, 0, len(file.Header))
@@ -582,6 +588,23 @@ func (mw *msgWriter) writeBody(writeFunc func(io.Writer) (int64, error), encodin
 	if mw.depth == 0 {
 		mw.bytesWritten += n
 	}
+}
+
+// hasControlChars reports whether the given string contains an US-ASCII control character
+// (US-ASCII < 32 or DEL).
+//
+// Parameters:
+//   - input: The string to check.
+//
+// Returns:
+//   - true if the string contains at least one control character; otherwise false.
+func hasControlChars(input string) bool {
+	for i := 0; i < len(input); i++ {
+		if input[i] < 32 || input[i] == 127 {
+			return true
+		}
+	}
+	return false
 }
 
 // sanitizeFilename sanitizes a given filename string by replacing specific unwanted characters with
